@@ -125,8 +125,8 @@ func checkpath(file string) string {
 	privfile := file
 	if IsAnyBitsSet(Lprivacypath) {
 		for k, v := range knownPathMap {
-			if strings.HasPrefix(privfile, k) {
-				privfile = strings.ReplaceAll(privfile, k, v)
+			if hasPathPrefix(privfile, k) {
+				privfile = v + privfile[len(k):] // replace the leading directory only
 			}
 		}
 
@@ -152,6 +152,15 @@ func checkpath(file string) string {
 		}
 	}
 	return privfile
+}
+
+// hasPathPrefix reports whether file is dir itself or lies below it: a
+// plain string prefix is not enough ("/home/u" must not match "/home/user2").
+func hasPathPrefix(file, dir string) bool {
+	if dir == "" || !strings.HasPrefix(file, dir) {
+		return false
+	}
+	return len(file) == len(dir) || dir[len(dir)-1] == '/' || file[len(dir)] == '/'
 }
 
 func checkedfuncname(name string) string {
